@@ -12,6 +12,8 @@
 //   bincopyn A B n       the same for one user number                                  -> "ok"
 //   sercopy A B lo hi    Serializer::Serialize(A, lo..hi, T and P included) ; Deserialize into B -> "ok <nints> <ndoubles>"
 //   serstream A lo hi    the Serializer stream of cells lo..hi (ints, doubles as bit patterns, words)  -> "ser i,..;d,..;w,.."
+//   hidden A             engine scalars and per-phase Peng-Robinson cache a later run starts from          -> "hid ..."
+//   setphase A <hexname> in pr_p pr_phi pr_si_f pr_tk (doubles as hex) / setpatm A patm_x last_patm_x  -> "ok"
 //   icopyraw A           Phreeqc copy(*engine of A) (copy constructor -> InternalCopy); dump_raw of the copy -> "raw <hex>"
 //   find T <hexitem> <0|1>   CParser::find_option(item, real vopts of table T, exact)        -> "I <n>"
 //   vopts T                  the real option vector                                            -> "V <hex> ..."
@@ -59,6 +61,20 @@ public:
     Phreeqc cp(*p->PhreeqcPtr);
     return rawall_engine(&cp);
   }
+  // the same copy, step by step, with the copy's error stream visible: where does InternalCopy stop?
+  static std::string icopydiag(IPhreeqc* p) {
+    std::ostringstream err;
+    Phreeqc* cp = new Phreeqc();
+    cp->Get_phrq_io()->Set_error_ostream(&err);
+    cp->Get_phrq_io()->Set_error_on(true);
+    std::string r = "completed";
+    try { cp->InternalCopy(p->PhreeqcPtr); } catch (...) { r = "threw"; }
+    std::ostringstream o;
+    o << r << " pitz_params=" << p->PhreeqcPtr->pitz_params.size() << " copy_pitz_params=" << cp->pitz_params.size()
+      << " sit_params=" << p->PhreeqcPtr->sit_params.size() << " msg=" << hx::hex(err.str());
+    // the partially built copy is deliberately leaked: destroying it is what corrupts the heap
+    return o.str();
+  }
   static std::string rawall_engine(Phreeqc* e) {
     std::ostringstream o;
     dumpmap(o, e->Rxn_solution_map);
@@ -84,6 +100,30 @@ public:
     a->PhreeqcPtr->phreeqc2cxxStorageBin(sb, n);
     b->PhreeqcPtr->cxxStorageBin2phreeqc(sb, n);
   }
+  // engine state outside the numbered entities that a later calculation starts from (investigation of history dependence)
+  static std::string hidden(IPhreeqc* p) {
+    Phreeqc* e = p->PhreeqcPtr;
+    std::ostringstream o;
+    o << "patm_x=" << hx::hexd(e->patm_x) << " last_patm_x=" << hx::hexd(e->last_patm_x) << " tc_x=" << hx::hexd(e->tc_x)
+      << " mu_x=" << hx::hexd(e->mu_x);
+    for (size_t i = 0; i < e->phases.size(); i++) {
+      class phase* ph = e->phases[i];
+      if (ph->pr_in || ph->pr_p != 0 || ph->pr_phi != 0 || ph->pr_si_f != 0 || ph->pr_tk != 0)
+        o << " | " << ph->name << " " << (ph->pr_in ? 1 : 0) << " " << hx::hexd(ph->pr_p) << " " << hx::hexd(ph->pr_phi) << " "
+          << hx::hexd(ph->pr_si_f) << " " << hx::hexd(ph->pr_tk);
+    }
+    return o.str();
+  }
+  static bool setphase(IPhreeqc* p, const std::string& name, int in, double pp, double phi, double sif, double tk) {
+    Phreeqc* e = p->PhreeqcPtr;
+    for (size_t i = 0; i < e->phases.size(); i++) if (name == e->phases[i]->name) {
+      class phase* ph = e->phases[i];
+      ph->pr_in = in != 0; ph->pr_p = pp; ph->pr_phi = phi; ph->pr_si_f = sif; ph->pr_tk = tk;
+      return true;
+    }
+    return false;
+  }
+  static void setpatm(IPhreeqc* p, double a, double b) { p->PhreeqcPtr->patm_x = a; p->PhreeqcPtr->last_patm_x = b; }
   // the serialisation stream itself (ints, doubles as bit patterns, dictionary words)
   static std::string serstream(IPhreeqc* a, int lo, int hi) {
     Serializer s(a->PhreeqcPtr->Get_phrq_io());
@@ -215,6 +255,11 @@ int main() {
       TestIPhreeqc::bincopyn(a, inst[w[2]], std::stoi(w[3]));
       std::cout << "ok\n";
     }
+    else if (op == "icopydiag") std::cout << "diag " << TestIPhreeqc::icopydiag(a) << "\n";
+    else if (op == "hidden") std::cout << "hid " << TestIPhreeqc::hidden(a) << "\n";
+    else if (op == "setphase" && w.size() == 8)
+      std::cout << (TestIPhreeqc::setphase(a, hx::unhex(w[2]), std::stoi(w[3]), hx::unhexd(w[4]), hx::unhexd(w[5]), hx::unhexd(w[6]), hx::unhexd(w[7])) ? "ok" : "no-such-phase") << "\n";
+    else if (op == "setpatm" && w.size() == 4) { TestIPhreeqc::setpatm(a, hx::unhexd(w[2]), hx::unhexd(w[3])); std::cout << "ok\n"; }
     else if (op == "serstream" && w.size() == 4) std::cout << "ser " << TestIPhreeqc::serstream(a, std::stoi(w[2]), std::stoi(w[3])) << "\n";
     else if (op == "sercopy" && w.size() == 5 && inst.count(w[2])) {
       std::pair<size_t, size_t> r = TestIPhreeqc::sercopy(a, inst[w[2]], std::stoi(w[3]), std::stoi(w[4]));
